@@ -268,6 +268,8 @@ func dischargeAll(vcs []*VC, dir string, timeoutS int, workers int) {
 			for vc := range ch {
 				if vc.Cover {
 					dischargeCover(vc, dir)
+				} else if vc.Known != "" && timeoutS > 6 {
+					discharge(vc, dir, 6, true)
 				} else {
 					discharge(vc, dir, timeoutS, true)
 				}
